@@ -299,6 +299,9 @@ Proof.
   - inversion H; subst. intros E. apply pv_of_json_none in E. contradiction.
   - destruct j as [| | | |[|c x]| |]; try discriminate. inversion H; subst.
     exists (c :: x); split; [reflexivity|discriminate].
+  - destruct j; try discriminate. unfold odd_value in H.
+    destruct (z =? 13)%Z; [discriminate|]. destruct (Z.odd z) eqn:Eo; [|discriminate].
+    inversion H; eauto.
 Qed.
 
 Lemma parse_literal_sound k l v : parse_literal k l = Ok v -> scalar_ok k v.
@@ -317,6 +320,10 @@ Proof.
     + inversion H; discriminate.
   - destruct l as [| | |[|c x] b lc| | | | |]; try discriminate. inversion H; subst.
     exists (c :: x); split; [reflexivity|discriminate].
+  - destruct l; try discriminate. destruct (parse_int_text s) as [z|]; [|discriminate].
+    unfold odd_value in H.
+    destruct (z =? 13)%Z; [discriminate|]. destruct (Z.odd z) eqn:Eo; [|discriminate].
+    inversion H; eauto.
 Qed.
 
 (* ------------------------------------------------------------------ *)
@@ -987,6 +994,10 @@ Proof.
     unfold cv_named, vfa_named. rewrite e. simpl. rewrite e0, e1. auto.
   - exists (PStr (c :: x)). rewrite cv_named_eq by discriminate.
     rewrite vfa_named_eq by reflexivity. unfold cv_named, vfa_named. rewrite e. auto.
+  - (* the raising user scalar, away from the value it raises on *)
+    exists (PInt z). rewrite cv_named_eq by discriminate. rewrite vfa_named_eq by reflexivity.
+    unfold cv_named, vfa_named. rewrite e. simpl. rewrite e0. unfold odd_value.
+    destruct (Z.eqb_spec z 13); [contradiction|]. rewrite e1. auto.
   - (* enum *)
     exists v. rewrite cv_named_eq by discriminate. rewrite vfa_named_eq by reflexivity.
     unfold cv_named, vfa_named. rewrite e, e0. auto.
@@ -1252,6 +1263,7 @@ Proof.
   - destruct H as (b & ->); discriminate.
   - assumption.
   - destruct H as (x & -> & _); discriminate.
+  - destruct H as (z & -> & _); discriminate.
 Qed.
 
 Theorem nonnull_never_null s t v :
@@ -1349,9 +1361,9 @@ Proof.
       * destruct (cv_fields fs look); simpl in *; auto.
 Qed.
 
-Lemma parse_scalar_decided k j : decided (parse_scalar k j).
+Lemma parse_scalar_decided k j : raising_scalar k = false -> decided (parse_scalar k j).
 Proof.
-  destruct k, j; simpl; try exact I; try reflexivity;
+  intros Hb. destruct k; try discriminate; destruct j; simpl; try exact I; try reflexivity;
     unfold int_range;
     repeat match goal with
            | |- decided (match ?x with _ => _ end) => destruct x; simpl
@@ -1362,6 +1374,7 @@ Qed.
 Section Total.
   Variable s : schema.
   Hypothesis Hclosed : schema_closed s.
+  Hypothesis Hbehaved : scalars_behaved s.
 
   Definition total_at (j : json) : Prop := forall t, bound s t -> decided (coerce_value s j t).
 
@@ -1372,7 +1385,7 @@ Section Total.
   Proof.
     intros Hj Hb IH. unfold bound in Hb; simpl in Hb. unfold cv_named.
     destruct (alookup n s) as [[k|vals|fs|]|] eqn:Hn; try congruence; try exact I.
-    - apply parse_scalar_decided.
+    - apply parse_scalar_decided. eapply Hbehaved; eauto.
     - destruct j; try reflexivity. destruct (alookup s0 vals); [exact I|reflexivity].
     - destruct j; try reflexivity. unfold cv_input.
       assert (Hd : decided (cv_fields fs (fun k => alookup k (cv_closures s kvs)))).
@@ -1452,9 +1465,10 @@ Definition decided_k {A} (k : nat) (o : outcome A) : Prop :=
 Lemma decided_is_k {A} (o : outcome A) : decided o <-> decided_k RK_coercion o.
 Proof. destruct o; simpl; tauto. Qed.
 
-Lemma parse_literal_decided k l : decided_k RK_invalid (parse_literal k l).
+Lemma parse_literal_decided k l :
+  raising_scalar k = false -> decided_k RK_invalid (parse_literal k l).
 Proof.
-  destruct k, l; simpl; try exact I; try reflexivity;
+  intros Hb. destruct k; try discriminate; destruct l; simpl; try exact I; try reflexivity;
     unfold int_rangeI;
     repeat match goal with
            | |- decided_k _ (match ?x with _ => _ end) => destruct x; simpl
@@ -1494,6 +1508,7 @@ Section TotalLit.
   Variable s : schema.
   Hypothesis Hclosed : schema_closed s.
   Hypothesis Hinputs : schema_inputs s.
+  Hypothesis Hbehaved : scalars_behaved s.
   Variable vs : vars.
 
   Definition ltotal_at (l : value) : Prop :=
@@ -1507,7 +1522,7 @@ Section TotalLit.
     intros Hp (Hb & Hi) IH. unfold bound in Hb; unfold input_ty in Hi; simpl in Hb, Hi.
     unfold vfa_named.
     destruct (alookup n s) as [[k|vals|fs|]|] eqn:Hn; try congruence.
-    - apply parse_literal_decided.
+    - apply parse_literal_decided. eapply Hbehaved; eauto.
     - destruct l; try reflexivity. destruct (alookup s0 vals); [exact I|reflexivity].
     - destruct l; try reflexivity. unfold vfa_input.
       assert (Hd : decided_k RK_invalid
@@ -1596,30 +1611,32 @@ End TotalLit.
 (* coerce_variable_values: a dict or VariablesCoercionError, whatever the
    variable definitions and the raw values *)
 Lemma var_binding_total s raw vd :
-  schema_closed s -> schema_inputs s -> decided_k RK_variables (var_binding s raw vd).
+  schema_closed s -> schema_inputs s -> scalars_behaved s ->
+  decided_k RK_variables (var_binding s raw vd).
 Proof.
-  intros Hc Hi. unfold var_binding.
+  intros Hc Hi Hbh. unfold var_binding.
   destruct (alookup (ity_name (ity_of_ty (vd_type vd))) s) as [d|] eqn:Hd; [|reflexivity].
   destruct (is_input_def d) eqn:Hin; simpl; [|reflexivity].
   assert (Hu : usable s (ity_of_ty (vd_type vd))).
   { split; [unfold bound; congruence|]. unfold input_ty. rewrite Hd.
     intros E; inversion E; subst; discriminate. }
   destruct (alookup (n_val (vd_var vd)) raw) as [j|].
-  - pose proof (cv_total s Hc j _ (proj1 Hu)) as Ht.
+  - pose proof (cv_total s Hc Hbh j _ (proj1 Hu)) as Ht.
     destruct (coerce_value s j _); simpl in *; auto; reflexivity.
   - destruct (vd_default vd) as [dl|].
-    + pose proof (vfa_total s Hc Hi [] dl _ Hu) as Ht.
+    + pose proof (vfa_total s Hc Hi Hbh [] dl _ Hu) as Ht.
       destruct (value_from_ast s [] dl _); simpl in *; auto; reflexivity.
     + destruct (ity_nn _); [reflexivity|exact I].
 Qed.
 
 Theorem cvv_total s vds raw :
-  schema_closed s -> schema_inputs s -> decided_k RK_variables (coerce_variable_values s vds raw).
+  schema_closed s -> schema_inputs s -> scalars_behaved s ->
+  decided_k RK_variables (coerce_variable_values s vds raw).
 Proof.
-  intros Hc Hi. unfold coerce_variable_values.
+  intros Hc Hi Hbh. unfold coerce_variable_values.
   assert (Hd : decided_k RK_variables (var_bindings s raw vds)).
   { induction vds as [|vd vds IH]; simpl; [exact I|].
-    pose proof (var_binding_total s raw vd Hc Hi) as Hb.
+    pose proof (var_binding_total s raw vd Hc Hi Hbh) as Hb.
     destruct (var_binding s raw vd); simpl in *; try contradiction.
     - destruct (var_bindings s raw vds); simpl in *; auto.
     - destruct (var_bindings s raw vds); simpl in *; auto; reflexivity. }
@@ -1627,39 +1644,40 @@ Proof.
 Qed.
 
 Theorem exec_total s defs vds call raw :
-  schema_closed s -> schema_inputs s -> (forall d, In d defs -> usable s (f_ty d)) ->
+  schema_closed s -> schema_inputs s -> scalars_behaved s ->
+  (forall d, In d defs -> usable s (f_ty d)) ->
   match exec_kwargs s defs vds call raw with
   | Ok _ => True
   | Rejected k _ => k = RK_variables \/ k = RK_coercion
   | _ => False
   end.
 Proof.
-  intros Hc Hi Hd. unfold exec_kwargs.
-  pose proof (cvv_total s vds raw Hc Hi) as Hv.
+  intros Hc Hi Hbh Hd. unfold exec_kwargs.
+  pose proof (cvv_total s vds raw Hc Hi Hbh) as Hv.
   destruct (coerce_variable_values s vds raw) as [vs| | |]; simpl in *; auto.
-  pose proof (cav_total s Hc Hi vs call defs Hd) as Ha.
+  pose proof (cav_total s Hc Hi Hbh vs call defs Hd) as Ha.
   destruct (coerce_argument_values s defs call vs); simpl in *; auto.
 Qed.
 
 (* ------------------------------------------------------------------ *)
 (* rejection, exactly                                                   *)
 Theorem wrong_rejected_exact s t j :
-  schema_closed s -> bound s t -> wrong s t j ->
+  schema_closed s -> scalars_behaved s -> bound s t -> wrong s t j ->
   exists p, coerce_value s j t = Rejected RK_coercion p.
 Proof.
-  intros Hc Hb Hw. pose proof (wrong_rejected s t j Hw) as Hn.
-  pose proof (cv_total s Hc j t Hb) as Hd.
+  intros Hc Hbh Hb Hw. pose proof (wrong_rejected s t j Hw) as Hn.
+  pose proof (cv_total s Hc Hbh j t Hb) as Hd.
   destruct (coerce_value s j t) as [v| |k p|]; simpl in Hd; try contradiction.
   - exfalso; eapply Hn; eauto.
   - subst k. eauto.
 Qed.
 
 Theorem wrong_lit_rejected_exact s vs t l :
-  schema_closed s -> schema_inputs s -> usable s t -> wrong_lit s t l ->
+  schema_closed s -> schema_inputs s -> scalars_behaved s -> usable s t -> wrong_lit s t l ->
   exists p, value_from_ast s vs l t = Rejected RK_invalid p.
 Proof.
-  intros Hc Hi Hu Hw. pose proof (wrong_lit_rejected s vs t l Hw) as Hn.
-  pose proof (vfa_total s Hc Hi vs l t Hu) as Hd.
+  intros Hc Hi Hbh Hu Hw. pose proof (wrong_lit_rejected s vs t l Hw) as Hn.
+  pose proof (vfa_total s Hc Hi Hbh vs l t Hu) as Hd.
   destruct (value_from_ast s vs l t) as [v| |k p|]; simpl in Hd; try contradiction.
   - exfalso; eapply Hn; eauto.
   - subst k. eauto.
@@ -1705,12 +1723,13 @@ Proof.
 Qed.
 
 Theorem directive_args_total s defs dname ds vs :
-  schema_closed s -> schema_inputs s -> (forall d, In d defs -> usable s (f_ty d)) ->
+  schema_closed s -> schema_inputs s -> scalars_behaved s ->
+  (forall d, In d defs -> usable s (f_ty d)) ->
   decided_k RK_coercion (directive_arguments s defs dname ds vs).
 Proof.
-  intros Hc Hi Hd. unfold directive_arguments.
+  intros Hc Hi Hbh Hd. unfold directive_arguments.
   destruct (find_directive dname ds) as [d|]; [|exact I].
-  pose proof (cav_total s Hc Hi vs (d_args d) defs Hd) as Ht.
+  pose proof (cav_total s Hc Hi Hbh vs (d_args d) defs Hd) as Ht.
   destruct (coerce_argument_values s defs (d_args d) vs); simpl in *; auto.
 Qed.
 
@@ -1743,4 +1762,51 @@ Proof.
   destruct (conforms_scalar_inv _ _ _ _ _ Hb Hv) as [->|(b & ->)].
   - exfalso. eapply nonnull_never_null; eauto.
   - exists b. apply alookup_iff_In; assumption.
+Qed.
+
+(* ------------------------------------------------------------------ *)
+(* a user scalar that raises an arbitrary exception: it bubbles up       *)
+Theorem raising_scalar_raises s nn n :
+  alookup n s = Some (TDScalar KOdd) ->
+  coerce_value s (JInt 13) (INamed nn n) = Crash CK_user_exception
+  /\ (forall vs lc, value_from_ast s vs (VInt (str_of_string "13") lc) (INamed nn n)
+                    = Crash CK_user_exception).
+Proof.
+  intros H. split.
+  - rewrite cv_named_eq by discriminate. unfold cv_named. rewrite H. reflexivity.
+  - intros vs lc. rewrite vfa_named_eq by reflexivity. unfold vfa_named. rewrite H. reflexivity.
+Qed.
+
+Lemma collect_items_crash rs1 : forall c rs2,
+  Forall decided rs1 -> collect_items (rs1 ++ Crash c :: rs2) = Crash c.
+Proof.
+  induction rs1 as [|r rs1 IH]; intros c rs2 H; simpl; [reflexivity|].
+  inversion H as [|? ? Hr Hrs]; subst. rewrite (IH c rs2 Hrs).
+  destruct r; simpl in Hr; try contradiction; reflexivity.
+Qed.
+
+(* ... through a list even when earlier items were already rejected: the
+   collecting loop only holds back CoercionErrors *)
+Theorem user_exception_bubbles_list s nn t l1 j l2 c :
+  (forall x, In x l1 -> decided (coerce_value s x t)) ->
+  coerce_value s j t = Crash c ->
+  coerce_value s (JList (l1 ++ j :: l2)) (IList nn t) = Crash c.
+Proof.
+  intros H1 Hj. rewrite cv_list, map_app. simpl. rewrite Hj.
+  rewrite collect_items_crash; [reflexivity|].
+  apply Forall_forall. intros r Hr. apply in_map_iff in Hr as (x & <- & Hx). auto.
+Qed.
+
+(* ... and out of argument assembly and variable coercion *)
+Theorem user_exception_bubbles_request s defs vds call raw vd j c :
+  vds = [vd] -> alookup (n_val (vd_var vd)) raw = Some j ->
+  (forall d, alookup (ity_name (ity_of_ty (vd_type vd))) s = Some d -> is_input_def d = true) ->
+  alookup (ity_name (ity_of_ty (vd_type vd))) s <> None ->
+  coerce_value s j (ity_of_ty (vd_type vd)) = Crash c ->
+  exec_kwargs s defs vds call raw = Crash c.
+Proof.
+  intros -> Hraw Hin Hk Hc. unfold exec_kwargs, coerce_variable_values. simpl.
+  unfold var_binding.
+  destruct (alookup (ity_name (ity_of_ty (vd_type vd))) s) as [d|] eqn:E; [|congruence].
+  rewrite (Hin d eq_refl). simpl. rewrite Hraw, Hc. reflexivity.
 Qed.
